@@ -533,6 +533,10 @@ def sco_container(draw, ver, opts):
                   ["domain-name", "ipv4-addr", "mac-addr"], ["ipv4-addr", "mac-addr", "autonomous-system", "url"], ["windows-registry-key", "user-account", "mutex"]]
         types = list(draw(st.sampled_from(groups)))
         n = len(types)
+    if opts.get("member_types"):
+        # caller-chosen member types (first one is the member of interest), plus partners so that its references have targets
+        types = list(opts["member_types"])
+        n = len(types)
     if ver == "2.0" and "network-traffic" in types and not any(t in types for t in ("ipv4-addr", "ipv6-addr", "mac-addr", "domain-name")):
         types.append(draw(st.sampled_from(["ipv4-addr", "ipv6-addr", "mac-addr", "domain-name"])))   # src_ref/dst_ref need a target
         n += 1
